@@ -601,6 +601,11 @@ AUTO = {"sub": guard_sub, "unwrap": guard_token_unwrap, "expect": guard_unwrap, 
         "divzero": guard_div, "remzero": guard_div}
 
 
+def _loose(key):
+    import re as _re
+    return _re.sub(r"\{closure#\d+\}", "{closure}", key)
+
+
 def load_inventory():
     if not os.path.exists(INVENTORY):
         return {}
@@ -611,6 +616,10 @@ def check_b(prog, rep, cfg):
     R = "C04.b"
     sites = enumerate_sites(prog)
     inv = load_inventory()
+    inv_loose = {}
+    for k0 in inv:
+        if "{closure#" in k0:
+            inv_loose.setdefault(_loose(k0), k0)
     used = set()
     counts = defaultdict(int)
     auto_n = 0
@@ -629,6 +638,13 @@ def check_b(prog, rep, cfg):
             rep.ok(R, {"site": s.key, "line": s.line, "guard": "verified: " + why})
             continue
         ent = inv.get(s.key)
+        if ent is None and "{closure#" in s.key:
+            # closures are numbered in source order: a closure added or removed in front renumbers the others.  The entry is identified by
+            # function, kind and canonical operands; the closure's number is not part of what was reviewed.
+            lk = _loose(s.key)
+            if lk in inv_loose:
+                ent = inv[inv_loose[lk]]
+                used.add(inv_loose[lk])
         if ent is not None:
             used.add(s.key)
             if ent.get("finding"):
